@@ -19,6 +19,8 @@ committed level) among the k; the write verifier differs between server instance
 import GoNfsd.Lemmas.WalCrash
 import GoNfsd.Lemmas.Fs
 import GoNfsd.Props.C01
+import GoNfsd.Gen.Skeleton
+import GoNfsd.Model.Skeleton
 
 namespace GoNfsd.Props.C07
 open GoNfsd.Model.Wal GoNfsd.Gen.Consts
@@ -142,5 +144,16 @@ theorem commit_makes_everything_before_it_durable (es es' : List GoNfsd.Model.Ob
     let t := GoNfsd.Model.ObjLog.step (GoNfsd.Model.ObjLog.run {} es) (.commit true true)
     t.durable = t.next ∧ t.next ≤ (GoNfsd.Model.ObjLog.run t es').durable :=
   GoNfsd.Props.C01.stable_commit_is_durable_whatever_was_remembered es es'
+
+/-- ONLY A WRITE MAY BE ACKNOWLEDGED BEFORE IT IS DURABLE: NFSv3 gives WRITE alone a stability level; every other successful
+    reply promises stable storage.  Tables regenerated from the whole module on every run: the journal's `CommitWait` is
+    called by `fstxn.commitWait` alone, every committing function of package fstxn waits except `CommitUnstable`, and the
+    only function outside fstxn/commit.go that calls `CommitUnstable` is the WRITE handler.  (Seeded change C07r lets a
+    SETATTR that sets only times commit through `CommitUnstable`: its reply, and every unstable write acknowledged before
+    it, is lost by a crash although no COMMIT was owed for it.) -/
+theorem only_write_commits_without_waiting :
+    (∀ c ∈ GoNfsd.Gen.Skeleton.unstableCommitters, c ∈ GoNfsd.Model.Skeleton.unstableCommittersAllowed) ∧
+    (∀ f ∈ GoNfsd.Gen.Skeleton.commitPaths, GoNfsd.Model.Skeleton.commitPathCheck f = true) ∧
+    GoNfsd.Model.Skeleton.unstableCommittersAllowed = ["nfs.NFSPROC3_WRITE"] := by decide
 
 end GoNfsd.Props.C07
